@@ -105,7 +105,8 @@ theorem unary_shaped_independent (cfg : Cfg) (op : ClientOp)
     simp only [hr] at hs
     simp only
     by_cases h1 : isShmPointer req.batch = true
-    · simp only [h1, if_true]; exact ⟨_, rfl, fun _ => rfl⟩
+    · simp only [h1, if_true] at hs ⊢
+      rw [hs]; exact ⟨_, rfl, fun _ => rfl⟩
     · simp only [h1, if_false]
       by_cases h2 : req.method = mDescribe
       · simp only [h2, if_true]; exact ⟨_, rfl, fun _ => rfl⟩
@@ -117,7 +118,7 @@ theorem unary_shaped_independent (cfg : Cfg) (op : ClientOp)
           | none => exact ⟨_, rfl, fun _ => rfl⟩
           | some info =>
             have hu : info.kind = .unary := by
-              cases hkk : info.kind <;> simp_all [isStreamKind]
+              cases hkk : info.kind <;> simp_all [isStreamKind, isStreamMethod]
             exact dispatch_unary cfg info req hu
 
 /-- A stream call consumes the stream that follows its request on EVERY path: refusal by the
@@ -132,15 +133,25 @@ theorem stream_shaped_consumes (cfg : Cfg) (op : ClientOp) (hs : isStreamCall cf
   | error e => simp [hr] at hs
   | ok req =>
     simp only [hr] at hs
-    cases hl : lookup cfg req.method with
-    | none => simp [hl] at hs
-    | some info =>
-      simp only [hl, Bool.and_eq_true, Bool.not_eq_true', bne_iff_ne, ne_eq] at hs
-      obtain ⟨⟨⟨h1, h2⟩, h3⟩, hk⟩ := hs
-      simp only [h1, h2, h3, hl, if_false, Bool.false_eq_true]
-      have hnu : info.kind ≠ .unary := by
-        intro hu; simp [isStreamKind, hu] at hk
-      exact dispatch_stream cfg info req hnu next
+    simp only
+    by_cases h1 : isShmPointer req.batch = true
+    · simp only [h1, if_true] at hs ⊢
+      rw [hs]
+      exact ⟨_, rfl, fun _ => .inl ⟨_, rfl, rfl⟩⟩
+    · have hs' : (req.method != mDescribe && req.method != mTransportOptions &&
+          isStreamMethod cfg req.method) = true := by simpa [h1] using hs
+      simp only [Bool.and_eq_true, bne_iff_ne, ne_eq] at hs'
+      obtain ⟨⟨h2, h3⟩, hk⟩ := hs'
+      simp only [h1, h2, h3, if_false, Bool.false_eq_true]
+      unfold isStreamMethod at hk
+      cases hl : lookup cfg req.method with
+      | none => simp [hl] at hk
+      | some info =>
+        simp only [hl] at hk
+        simp only
+        have hnu : info.kind ≠ .unary := by
+          intro hu; simp [isStreamKind, hu] at hk
+        exact dispatch_stream cfg info req hnu next
 
 /-- `serveOne_consumes_exactly`: on a well-shaped call followed by anything, `serveOne` writes
 the answer the call gets on a fresh connection and consumes exactly the call's own frames. -/
